@@ -434,6 +434,34 @@ func runC03(p *Prog, r *Report) {
 			}
 		}
 		r.Check(okCap, "C03.R4", what+": credited tokens are capped at burst afterwards", p.InstrPos(credit), "every path from the credit to a return passes `if availableTokens > burst { availableTokens = burst }`", "after crediting, availableTokens is not capped at burst on every path")
+		// the level is never consulted above burst: the cap is passed on EVERY way through the refill (a roll-back or
+		// a negative amount can raise the level between two refills), except where the bucket does not limit at
+		// all (timePerToken == 0)
+		if capIf != nil {
+			isCap := func(in ssa.Instruction) bool { return in == ssa.Instruction(capIf) }
+			var unlimited []Edge
+			for _, ifi := range ifs(fn) {
+				if cmp, ok := CanonCmp(BuildExpr(p, ifi.Cond, nil)); ok && (cmp.Op == "==" || cmp.Op == "!=") && len(cmp.D.P) == 1 && cmp.Mentions("fld(p0)."+b.tpt) {
+					k := 0
+					if cmp.Op == "!=" {
+						k = 1
+					}
+					unlimited = append(unlimited, Edge{ifi.Block(), k})
+				}
+			}
+			limited := func(e Edge) bool {
+				for _, u := range unlimited {
+					if u.B == e.B && u.K == e.K {
+						return false
+					}
+				}
+				return true
+			}
+			ret := ReturnReachableAvoiding(fn, nil, isCap, limited)
+			r.Paths++
+			r.Check(ret == nil, "C03.R4", what+": the cap is applied on every way through the refill", p.InstrPos(capIf), "with the timePerToken == 0 edge deleted no return is reachable without passing the cap test",
+				"the refill can return without capping the level at burst"+posOf(p, ret)+": tokens put back by a roll-back, or gained by a negative amount, stay above the burst until the next credit — more than burst can be admitted at one instant")
+		}
 	}
 	// the checkpoint moves nowhere else: outside the refill routine lastRefresh is only initialised in a freshly allocated bucket
 	nLR := 0
@@ -716,6 +744,8 @@ func c03Capacity(p *Prog, r *Report, rule string, tl *types.Named) {
 // ---------------- C13 ----------------
 
 func runC13(p *Prog, r *Report) {
+	// R10: a source's budget is its own: the built-in extractors name the source exactly (shared with C19.R1/R2)
+	r.Borrow(p, runC19, map[string]string{"C19.R1": "C13.R10", "C19.R2": "C13.R10"}, nil)
 	// R8: the rejection a client is shown is its own: what the limiter hands to the error handler after releasing its lock is not shared limiter state (shared with C09.R1 for the limiter)
 	if tlT := p.Named("ratelimit", "TokenLimiter"); tlT != nil {
 		r.Floor("C13.R8", c09Races(p, r, "C13.R8", []*types.Named{tlT}), 1, "written shared locations of the limiter")
@@ -989,7 +1019,46 @@ func runC13(p *Prog, r *Report) {
 				switch x := stripConv(v).(type) {
 				case *ssa.Const:
 				case *ssa.Phi:
-					for _, e := range x.Edges {
+					for i, e := range x.Edges {
+						// a bucket's delay that replaces the running value directly (not through max) must have been
+						// found larger than it: `if delay > maxDelay { maxDelay = delay }`
+						if ex, ok := stripConv(e).(*ssa.Extract); ok && i < len(x.Block().Preds) {
+							if c, okc := ex.Tuple.(*ssa.Call); okc && c.Common().StaticCallee() == b.consume && ex.Index == 0 {
+								pred := x.Block().Preds[i]
+								larger := false
+								for _, ifi := range ifs(b.setCons) {
+									cnd, pos := condStrip(ifi.Cond)
+									bo, okb := cnd.(*ssa.BinOp)
+									if !okb {
+										continue
+									}
+									var k int
+									switch {
+									case (bo.Op == token.GTR || bo.Op == token.GEQ) && stripConv(bo.X) == ssa.Value(ex):
+										if _, isPhi := stripConv(bo.Y).(*ssa.Phi); !isPhi {
+											continue
+										}
+										k = 0
+									case (bo.Op == token.LSS || bo.Op == token.LEQ) && stripConv(bo.Y) == ssa.Value(ex):
+										if _, isPhi := stripConv(bo.X).(*ssa.Phi); !isPhi {
+											continue
+										}
+										k = 0
+									default:
+										continue
+									}
+									if !pos {
+										k = 1 - k
+									}
+									if OnlyViaEdge(b.setCons, pred.Instrs[len(pred.Instrs)-1], Edge{ifi.Block(), k}) {
+										larger = true
+									}
+								}
+								if !larger {
+									badLeaf = "a bucket's delay stored over the running maximum without comparing them (the last refusing bucket wins, not the slowest)"
+								}
+							}
+						}
 						walk(e, d+1)
 					}
 				case *ssa.Extract:
@@ -1204,6 +1273,7 @@ func condOperand(ifi *ssa.If) ssa.Value {
 func mutantsC03() []Mutant {
 	tl, bk, bs := "ratelimit/tokenlimiter.go", "ratelimit/bucket.go", "ratelimit/bucketset.go"
 	return []Mutant{
+		{Name: "refill-returns-before-cap", File: "ratelimit/bucket.go", Old: "\tif tokens != tb.availableTokens {\n\t\ttb.lastRefresh = now\n\t\ttb.availableTokens = tokens\n\t}\n", New: "\tif tokens == tb.availableTokens {\n\t\treturn\n\t}\n\ttb.lastRefresh = now\n\ttb.availableTokens = tokens\n", Expect: "C03.R4"},
 		{Name: "consume-lazy-refill", File: "ratelimit/bucket.go", Old: "\ttb.updateAvailableTokens()\n\ttb.lastConsumed = 0\n", New: "\ttb.lastConsumed = 0\n\tif tokens == 0 || tb.availableTokens < tokens {\n\t\ttb.updateAvailableTokens()\n\t}\n", Expect: "C03.R4"},
 		{Name: "update-only-when-rates-differ-from-default", File: "ratelimit/tokenlimiter.go", Old: "\t\tbucketSet.Update(effectiveRates)\n", New: "\t\tif effectiveRates != tl.defaultRates {\n\t\t\tbucketSet.Update(effectiveRates)\n\t\t}\n", Expect: "C03.R2"},
 		{Name: "set-only-on-create", File: tl, Old: "\t\tbucketSet = NewTokenBucketSet(effectiveRates)\n\t}\n", New: "\t\tbucketSet = NewTokenBucketSet(effectiveRates)\n\t\t_ = tl.bucketSets.Set(source, bucketSet, int(bucketSet.maxPeriod/clock.Second)*10+1)\n\t}\n\tif false {\n\t\treturn nil\n\t}\n", More: []Edit{{tl, "\tif err := tl.bucketSets.Set(source, bucketSet, int(bucketSet.maxPeriod/clock.Second)*10+1); err != nil {\n\t\treturn err\n\t}\n", ""}}, Expect: "C03.R1"},
@@ -1228,6 +1298,7 @@ func mutantsC03() []Mutant {
 func mutantsC13() []Mutant {
 	tl, bk, bs := "ratelimit/tokenlimiter.go", "ratelimit/bucket.go", "ratelimit/bucketset.go"
 	return []Mutant{
+		{Name: "last-refusing-bucket-wins", File: "ratelimit/bucketset.go", Old: "\t\t\t\tmaxDelay = maxDuration(maxDelay, delay)\n", New: "\t\t\t\tif delay > 0 {\n\t\t\t\t\tmaxDelay = delay\n\t\t\t\t}\n", Expect: "C13.R2"},
 		{Name: "set-skips-instant-buckets", File: "ratelimit/bucketset.go", Old: "\tfor _, tokenBucket := range tbs.buckets {\n\t\t// We keep calling", New: "\tfor _, tokenBucket := range tbs.buckets {\n\t\tif tokenBucket.timePerToken == 0 {\n\t\t\tcontinue\n\t\t}\n\t\t// We keep calling", Expect: "C13.R9"},
 		{Name: "consume-outside-mutex", File: tl, Old: "\tdelay, err := bucketSet.Consume(amount)\n", New: "\ttl.mutex.Unlock()\n\tdelay, err := bucketSet.Consume(amount)\n\ttl.mutex.Lock()\n", Expect: "C13.R6"},
 		{Name: "rollback-only-on-error", File: bs, Old: "\tif firstErr != nil || maxDelay > 0 {", New: "\tif firstErr != nil {", Expect: "C13.R2"},
